@@ -446,12 +446,13 @@ func strUpper(L *LState) int {
 }
 
 func luaIndex2StringIndex(str string, i int, start bool) int {
-	if start && i != 0 {
-		i -= 1
-	}
 	l := len(str)
 	if i < 0 {
+		// counted from the end; resolved before anything is subtracted (-2^63 - 1 would wrap around)
 		i = l + i + 1
+	}
+	if start && i > 0 {
+		i -= 1
 	}
 	i = intMax(0, i)
 	if i > l {
